@@ -73,6 +73,17 @@ def replay(prop, path):
         case = v.get("case", v)
         inp = os.path.join(wd, "r.in")
         trace = os.path.join(wd, "r.trace")
+        if case.get("k") in ("tab", "crash"):
+            with open(inp, "w") as f:
+                f.write(json.dumps(case) + "\n")
+            C.run_harness(["xp-record", "--regroup", inp, "--out", trace])
+            xp.validate(out, "Trace_Scalar", {"Prop": '"C09"', "Dev": "{}"}, trace, "xpscrv")
+            out.traces = 1
+            out.evaluations = 1
+            out.nontrivial_count = 1
+            out.sample({"expr": xp.cps(case.get("expr", []))})
+            out.rule = "replay of one stored case"
+            return out.finish()
         with open(inp, "w") as f:
             f.write(json.dumps({"k": "doc", "doc": 1, "tree": case["tree"], "text": case["text"]}) + "\n")
             c = {"k": "xp", "fam": case.get("fam", "replay"), "doc": 1, "ast": case["ast"], "sp": case["sp"],
